@@ -90,8 +90,8 @@ var c12Neutral = []Mutant{
 var c15Neutral = []Mutant{
 	validTypeHoisted,
 	{Name: "neutral-spdx-name-version-direct", File: convGo,
-		Old: "		pName := p.Name\n		pVersion := p.Version\n		if pName == \"\" || pVersion == \"\" {",
-		New: "		if p.Name == \"\" || p.Version == \"\" {",
+		Old:  "		pName := p.Name\n		pVersion := p.Version\n		if pName == \"\" || pVersion == \"\" {",
+		New:  "		if p.Name == \"\" || p.Version == \"\" {",
 		Old2: "		pID := SPDXRefPrefix + \"Package-\" + replaceSPDXIDInvalidChars(pName)", New2: "		pName, pVersion := p.Name, p.Version\n		pID := SPDXRefPrefix + \"Package-\" + replaceSPDXIDInvalidChars(pName)"},
 	{Name: "neutral-cdx-format-if-chain", File: "binary/cdx/cdx.go",
 		Old: "	switch format {\n	case \"cdx-json\":\n		cdxFormat = cyclonedx.BOMFileFormatJSON\n	case \"cdx-xml\":\n		cdxFormat = cyclonedx.BOMFileFormatXML\n	default:\n		return fmt.Errorf(\"%s has an invalid CDX format or not supported by SCALIBR\", path)\n	}\n",
